@@ -16,7 +16,8 @@ import z3
 from vlib import core, pool
 from vlib.pool import JobResult
 from harness import hc
-from harness.C07 import mk_string, plain, classify
+from harness.C07 import mk_string, classify
+plain = hc.plain
 from symrun import engine as E, templates as T
 from symrun.values import SymInt, SymFloat, mkbool
 from symrun.strings import SymStr, Cell, symcell, cell_test, parse_int, _mk
